@@ -241,10 +241,42 @@ func shaped(r *prng.R, n int) string {
 	}
 }
 
+// returnChain: a function that ends in an if / else-if / else chain in which every arm
+// returns, except (usually) one chosen arm, which falls through. Without a return after
+// the chain the analyzer has to refuse it ("must return a value on all paths"); if it
+// accepts, the module must still validate and instantiate.
+func returnChain(r *prng.R) string {
+	n := r.Range(1, 3) // else-if arms
+	drop := r.Intn(n+3) - 1
+	conds := []string{"p0 > 3", "p1", "p2 < 0.5", "p0 == 7", "p0 < -2", "not p1"}
+	arm := func(i int) string {
+		if i == drop {
+			return fmt.Sprintf("v%d := p0 + %d\n", i, i+1)
+		}
+		return fmt.Sprintf("return p0 + %d\n", i+1)
+	}
+	var sb strings.Builder
+	fmt.Fprintf(&sb, "if %s {\n%s}", conds[r.Intn(len(conds))], arm(0))
+	for i := 1; i <= n; i++ {
+		fmt.Fprintf(&sb, " else if %s {\n%s}", conds[r.Intn(len(conds))], arm(i))
+	}
+	fmt.Fprintf(&sb, " else {\n%s}", arm(n+1))
+	body := sb.String()
+	if r.Chance(1, 3) {
+		body = "if p1 {\nreturn 0\n} else {\n" + body + "\n}"
+	}
+	if r.Chance(1, 8) {
+		body += "\nreturn 9"
+	}
+	return wrapFunc("i64", body)
+}
+
 func crashInput(r *prng.R, thorough bool) (string, string) {
 	switch n := r.Intn(100); {
-	case n < 62:
+	case n < 56:
 		return mutate(r), "mutant"
+	case n < 62:
+		return returnChain(r), "return-chain"
 	case n < 80:
 		return soup(r), "soup"
 	case n < 90:
@@ -309,7 +341,7 @@ func ddminText(toks []string, pred func([]string) bool, budget int) []string {
 }
 
 func layerCrash(h *harness.H) {
-	h.AddRule("crash layer: token-level mutants of generated programs, token soup, byte noise and pathological shapes through " +
+	h.AddRule("crash layer: token-level mutants of generated programs, token soup, byte noise, pathological shapes and if-else-if-else return chains with one arm falling through (6%: must be refused, or be a valid module) through " +
 		"text.Parse -> text.Analyze -> compiler.Compile -> wazero in a child process; distinct = distinct input texts that completed")
 	total := h.N(3000, 120000)
 	batches := (total + crashBatchSize - 1) / crashBatchSize
